@@ -36,9 +36,9 @@ CHECKS = {
  "C19": ("exploration", "seeded simulation; strict fold of all step and release-all outputs", "3.A, 4 C19",
          "Every emitted event is folded strictly: a press of a down key or a release of an up key is a violation (world A over step and release-all outputs; world B over every batch the real loop writes except timer chords, which C11 owns). No reference model involved in world A.", A_NOTE),
  "C10": ("exploration", "discrete-event simulation of the real event loop under a simulated driver; trace refinement against RefLoop and the drain-to-Busy rule", "3.B, 4 C10",
-         "The real per-device loop runs on a simulated driver with edge-triggered readiness; arrival batching, device order, latency, signal interruptions with back-off, spurious time-outs/readiness and device removal are drawn from a decision tape. The recorded trace must refine RefLoop: every non-empty mapper step written once and in order, every notified device read until Busy/End before the next poll, no call after End. A hybrid campaign runs the shipped RealDriver (hook H3) on pipes underneath the simulated schedule and cross-checks its zero-timeout poll (token to device mapping, edge-triggered readiness) at every wake-up.", B_NOTE),
+         "The real per-device loop runs on a simulated driver with edge-triggered readiness; arrival batching, device order, latency, signal interruptions with back-off, spurious time-outs/readiness and device removal are drawn from a decision tape. The recorded trace must refine RefLoop: every non-empty mapper step written once and in order, every notified device read until Busy/End before the next poll, no call after End. A hybrid campaign runs the shipped RealDriver (hook H3) on pipes underneath the simulated schedule and cross-checks its zero-timeout poll (token to device mapping, edge-triggered readiness) at every wake-up. In half of the hybrid runs the loop's poll is the shipped RealDriver::poll itself, called with the loop's own time-out; the wait system call it makes (epoll_wait through mio) is answered by the simulated kernel at a system-call seam (EINTR at an arbitrary instant, time-out, fabricated readiness, stale edge dropped), so the mapping of EINTR / 0 events / ready tokens into Interrupted / TimedOut / DeviceEvent runs inside whole loop histories and is compared with what the kernel answered.", B_NOTE),
  "C11": ("exploration", "discrete-event simulation with a simulated clock; exact timeout/deadline prediction and chord payload check", "3.B, 4 C11",
-         "The clock is simulated, so every poll timeout is predicted (None while unarmed is wrong when armed; the wait must end at the deadline, which lies between the read of the arming event and the next wait and is exact afterwards; at most 1 ms when overdue; a wait that ends earlier is legal and owes nothing); timings range from 0 ms to a day; chords are sent iff a time-out occurs while armed and not in tablet mode, with the payload 'repeat keys not already held, listed order, reverse release', and leave the held set unchanged.", B_NOTE),
+         "The clock is simulated, so every poll timeout is predicted (None while unarmed is wrong when armed; the wait must end at the deadline, which lies between the read of the arming event and the next wait and is exact afterwards; at most 1 ms when overdue; a wait that ends earlier is legal and owes nothing); timings range from 0 ms to a day; chords are sent iff a time-out occurs while armed and not in tablet mode, with the payload 'repeat keys not already held, listed order, reverse release', and leave the held set unchanged. A third campaign (syspoll) runs the loop on the shipped RealDriver::poll: the time-out the loop computes goes through mio into epoll_wait, which the simulated kernel answers with millisecond granularity; a wait system call longer than what the loop asked for, or a time-out reported before the asked time (less 1 ms) has passed - e.g. an interruption reported as a time-out - is C11-hybrid.", B_NOTE),
  "C12": ("exploration", "discrete-event simulation with tablet-switch arrivals interleaved with key arrivals and timer ticks", "3.B, 4 C12",
          "Tablet on/off events (repeated, during chords, with a timer armed, in the same wake-up as key events in both orders): release batch equals the held keys (as a set), no write until Off is read, and afterwards the loop must behave like RefLoop continued with a brand-new mapper (C12-not-fresh), so state carried across the change by the mapper or the timer is visible. The release of a key whose press was not handed to the mapper since the last change is owed nothing, whatever the mapper under test answers (C12-orphan-release). A hybrid campaign runs the shipped RealDriver on pipes: not reporting a tablet switch that has unread data (or a hang-up) counts against 'immediately' (C12-hybrid).", B_NOTE),
  "C14": ("exploration", "stored-file fault simulation (torn/corrupted layout file) through the real loader, then the real mapper under key histories; exhaustive truncation sweep of shipped texts", "3.D, 4 C14",
@@ -48,7 +48,7 @@ CHECKS = {
          "The simulator plays the uinput consumer and the evdev node on pipes: bytes of every batch are compared record by record with libc::input_event; the tool's reader must decode them back; on streams interleaving foreign records it must return exactly the press/release records with known codes. The sweep over all known key codes x {press, release} is exhaustive; batches/interleavings are sampled; hybrid world-B runs put the byte layer under whole loop histories.",
          "Trusted: libc::input_event for this target; KeyCode discriminants = kernel key numbers. Real code: DevInputWriter::send, StructSerializer, DevInputReader::next, TabletModeSwitchReader::next. Host ABI only."),
  "C20": ("fault_enumeration", "per-call I/O fault sweep: every driver call of every sampled schedule fails in turn", "3.B, 4 C20",
-         "For each sampled (layout, schedule, tape) the fault-free run is executed once to learn its n driver calls, then re-executed n times with exactly the k-th call (register, poll, read or send) returning an error, for every k. The loop must return that error and write nothing afterwards. Two further sweeps go below the driver seam in hybrid runs: every send with the OS-level write under the shipped RealDriver/DevInputWriter failing (EAGAIN, EPIPE, EBADF) and every keyboard/tablet read failing (EBADF). Enumeration over fault positions is complete per schedule; schedules are sampled.", B_NOTE),
+         "For each sampled (layout, schedule, tape) the fault-free run is executed once to learn its n driver calls, then re-executed n times with exactly the k-th call (register, poll, read or send) returning an error, for every k. The loop must return that error and write nothing afterwards. Two further sweeps go below the driver seam in hybrid runs: every send with the OS-level write under the shipped RealDriver/DevInputWriter failing (EAGAIN, EPIPE, EBADF) and every keyboard/tablet read failing (EBADF). Enumeration over fault positions is complete per schedule; schedules are sampled. In the runs whose poll goes through the shipped RealDriver::poll every wait system call fails in turn as well (EBADF, EINVAL, EFAULT).", B_NOTE),
 }
 
 NOT_APPLICABLE = {
